@@ -14,7 +14,7 @@ RULE = ("2-3 driver objects of any mix of RF24, FakeBLE, RF24Network, RF24Networ
         "every __exit__. Non-trivial: a re-entry was compared after another object had changed "
         "at least one register; distinct = distinct (class mix, block order, calls).")
 REQUIRED = {"reentry_compare": 2000, "exit_state": 2000, "foreign_change_seen": 500}
-BUDGET = {"quick": 150, "thorough": 420}
+BUDGET = {"quick": 480, "thorough": 900}
 
 CLASSES = ["RF24", "FakeBLE", "RF24Network", "RF24NetworkRoutingOnly", "RF24Mesh", "RF24MeshNoMaster"]
 
